@@ -14,12 +14,62 @@ def ex_Call(self, node, fr):
     pos, kw, star, dstar = [], [], None, None
     for a in node.args:
         if isinstance(a, ast.Starred):
-            v = self.ev(a.value, fr)
+            over = getattr(self, '_star_override', {})
+            v = over[id(a)] if id(a) in over else self.ev(a.value, fr)
             va = v.single_atom()
             if va is not None and va.kind in ('tuple', 'list'):
                 pos.extend(va.args)
+            elif va is not None and va.kind == 'ite' and any(
+                    y.kind in ('tuple', 'list') for x in va.args[1:] for y in T.all_atoms(x).values()):
+                # f(*(A if c else B))  ==  f(*A) if c else f(*B)
+                from .sva_expr import eval_cases
+
+                def arm(val, a=a):
+                    def run():
+                        old = getattr(self, '_star_override', {})
+                        self._star_override = dict(old)
+                        self._star_override[id(a)] = val
+                        try:
+                            return ex_Call(self, node, fr)
+                        finally:
+                            self._star_override = old
+                    return run
+                return eval_cases(self, fr, va.args[0], arm(va.args[1]), arm(va.args[2]))
             else:
-                star = v
+                # length known from the path condition (`if len(v) == 2: ... f(*v)`): expand; else keep the unpacking in
+                # place as a marker (the positions of the later arguments are unknown, the call stays opaque)
+                n_known = None
+                lk = T.mk_call('len', [v])
+                for c_ in self.pc:
+                    ca_ = c_.single_atom()
+                    if ca_ is not None and ca_.kind == 'cmp' and ca_.args[0] == '==':
+                        d_ = (ca_.args[1] - ca_.args[2])
+                        k_ = (lk - d_).const() if (lk - d_).const() is not None else ((lk + d_).const())
+                        if k_ is not None and k_.denominator == 1 and 0 <= k_ <= 6 and (
+                                (lk - d_ - Term.num(k_)).is_zero() or (lk + d_ - Term.num(k_)).is_zero()):
+                            n_known = int(k_)
+                ar = _arity_of_package_call(self, v, node, fr) if n_known is None else None
+                if ar is not None and ar.const() is not None:
+                    n_known = int(ar.const())
+                elif ar is not None:
+                    # the number of items depends on a condition: f(*v) == f(v[0], v[1]) if c else f(v[0], v[1], v[2])
+                    def lit(t_):
+                        ta_ = t_.single_atom()
+                        if ta_ is not None and ta_.kind == 'ite':
+                            return T.mk_ite(ta_.args[0], lit(ta_.args[1]), lit(ta_.args[2]))
+                        return T.mk_tuple([self.subscript(v, Term.num(i)) for i in range(int(t_.const()))])
+                    old_over = over
+                    self._star_override = dict(over)
+                    self._star_override[id(a)] = lit(ar)
+                    try:
+                        return ex_Call(self, node, fr)
+                    finally:
+                        self._star_override = old_over
+                if n_known is not None:
+                    pos.extend(self.subscript(v, Term.num(i)) for i in range(n_known))
+                else:
+                    star = v
+                    pos.append(Term.of(Atom('starred', v, 0)))
         else:
             pos.append(self.ev(a, fr))
     for k in node.keywords:
@@ -82,6 +132,8 @@ def _call_value(self, callee, pos, kw, node, fr, star=None, dstar=None):
             ci = self.prog.classes.get(ra.args[0])
             if fi.is_classmethod:
                 return self.call_package(fi, pos, kw, recv, ci, node, fr, star, dstar, cls_term=recv)
+            if fi.is_staticmethod:
+                return self.call_package(fi, pos, kw, None, None, node, fr, star, dstar)
             # Class.method(self, ...) unbound
             pos2 = list(pos)
             st = pos2.pop(0) if pos2 else sym('self')
@@ -543,6 +595,53 @@ def call_external(self, dotted, pos, kw, node, fr):
     return T.mk_call(dotted, pos, kw)
 
 
+def _arity_of_package_call(self, v, node, fr):
+    """len(f(args)) of a package function kept opaque: the function's body is evaluated on those arguments (events
+    discarded) and the length read off the tuples it returns"""
+    a = v.single_atom()
+    if a is None or a.kind != 'call' or a.args[2]:
+        return None
+    fi = self.prog.functions.get(PKG + '.' + str(a.args[0]))
+    if fi is None or fi.cls is not None or isinstance(fi.node, ast.Lambda) or len(a.args[1]) != len(fi.all_params()):
+        return None
+    if getattr(self, '_arity_busy', False):
+        return None
+    rec, self.record = self.record, False
+    nev = len(self.events)
+    no_inline, self.no_inline = self.no_inline, set(self.no_inline) - {fi.short}
+    env0, heap0 = fr.env, self.heap
+    self._arity_busy = True
+    depth0 = fr.depth
+    try:
+        fr.env, self.heap = dict(env0), dict(heap0)
+        fr.depth = 0
+        r = self.call_package(fi, list(a.args[1]), [], None, None, node, fr)
+    except Exception:
+        import os, traceback
+        if os.environ.get('VSTATIC_DEBUG'):
+            traceback.print_exc()
+        r = None
+    finally:
+        self._arity_busy = False
+        fr.depth = depth0
+        fr.env, self.heap = env0, heap0
+        self.no_inline = no_inline
+        self.record = rec
+        del self.events[nev:]
+        self.pending = []
+
+    def arity(t):
+        ta = t.single_atom()
+        if ta is not None and ta.kind in ('tuple', 'list'):
+            return Term.num(len(ta.args))
+        if ta is not None and ta.kind == 'ite':
+            x, y = arity(ta.args[1]), arity(ta.args[2])
+            if x is not None and y is not None:
+                return T.mk_ite(ta.args[0], x, y)
+        return None
+    return arity(r) if r is not None else None
+
+
 def call_builtin(self, name, pos, kw, node, fr):
     self.emit('call', node, fr, name=name, resolved=None, args=pos, kwargs=kw, external=True, builtin=True)
     if name == 'isinstance' and len(pos) == 2:
@@ -573,6 +672,9 @@ def call_builtin(self, name, pos, kw, node, fr):
             if pos[0].const() is not None:
                 return TRUE
             return T.mk_call('isinstance', [pos[0], Term.of(Atom('builtin', '<scalar types>'))])
+        CONTAINERS = {'list', 'tuple', 'ndarray', 'dict', 'set', 'str', 'bytes', 'Quantity', 'PurePath', 'Path'}
+        if tnames and tnames <= CONTAINERS - {'str'} and (pos[0].const() is not None or (xa is not None and xa.kind == 'str')):
+            return FALSE          # a literal number / string is none of the container types
         if xa is not None and xa.kind == 'new':
             ci = self.prog.classes.get(xa.args[0])
             if ta is not None and ta.kind == 'class':
@@ -595,6 +697,14 @@ def call_builtin(self, name, pos, kw, node, fr):
             s = as_seq(pos[0])
             if s is not None:
                 return s[2]
+            def length(v, d=0):
+                va = v.single_atom()
+                if va is not None and va.kind == 'ite' and d < 4:
+                    return T.mk_ite(va.args[0], length(va.args[1], d + 1), length(va.args[2], d + 1))
+                r_ = _arity_of_package_call(self, v, node, fr)
+                return r_ if r_ is not None else self.numpy_call('len', [v], [])
+            if pos[0].single_atom() is not None and pos[0].single_atom().kind in ('ite', 'call'):
+                return length(pos[0])
         return self.numpy_call(name, pos, kw)
     if name == 'iter' and len(pos) == 2 and not kw:
         # iter(callable, sentinel): the callable is called once per element -- analyse one call (its events count)
